@@ -3,6 +3,7 @@ package props
 import (
 	"encoding/json"
 	"fmt"
+	"github.com/issue9/mux/v9"
 	"strings"
 
 	"verifharness/explore"
@@ -293,7 +294,7 @@ func pairJob(raw json.RawMessage) (any, error) {
 
 // c17ExoticTokens: parameter spellings the parser accepts besides the plain ones (empty rule, braces inside a rule,
 // '-' flag), and literal text in which two patterns share the first bytes of a multi-byte character.
-var c17ExoticTokens = []string{"a", "/", "/\u4e2d", "/\u4e3d", "\u4e2d", "\u4e3d", "{a}", "{b}", "{-a}", "{--a}", "{a:}", "{b", "{c", "{b:}", "{-b:}", "{a:\\d+}", "{b:\\d+}", "{a:a{}}", "{a:a{x}}", "{a:a{y}}", "{b:a{}}", "{a:x}", "{a:[}]}",
+var c17ExoticTokens = []string{"a", "/", "/\u4e2d", "/\u4e3d", "\u4e2d", "\u4e3d", "{a}", "{b}", "{-a}", "{--a}", "{a:}", "{b", "{c", "{", "{{}", "x{", "{b:}", "{-b:}", "{a:\\d+}", "{b:\\d+}", "{a:a{}}", "{a:a{x}}", "{a:a{y}}", "{b:a{}}", "{a:x}", "{a:[}]}",
 	"/" + strings.Repeat("s", 300)} // literal text longer than one byte can count
 
 func c17ExoticPool() []string {
@@ -336,6 +337,9 @@ func exoticJob(raw json.RawMessage) (any, error) {
 		}
 		r := NewRouter(cfg)
 		r.Handle(it.First, hv.Route("h1"), nil, "GET")
+		if it.Prop == "C05" { // a second route that extends the first one's text, so that the first becomes a node with a child
+			Guard(func() { r.Handle(it.First+"a", hv.Route("h1a"), nil, "GET") })
+		}
 		before := c17Vector(r, c17ExoticProbes)
 		pv, paniced := Guard(func() { r.Handle(second, hv.Route("h2"), nil, "POST") })
 		out.Pairs++
@@ -344,6 +348,9 @@ func exoticJob(raw json.RawMessage) (any, error) {
 				Replay: explore.ItemReplay("c17/exotic", exoticItem{Prop: it.Prop, IC: it.IC, First: it.First, Only: second})})
 			if it.Prop == "C03" {
 				out.Viols[len(out.Viols)-1].Property = "C03"
+			}
+			if it.Prop == "C05" {
+				out.Viols[len(out.Viols)-1].Property = "C05"
 			}
 		}
 		// what the model says, where it has an opinion: both spellings are within the documented syntax
@@ -358,6 +365,9 @@ func exoticJob(raw json.RawMessage) (any, error) {
 		}
 		outc[fmt.Sprintf("exotic/%v/%v", verdict, paniced)] = struct{}{}
 		if it.Prop == "C03" && paniced {
+			continue
+		}
+		if it.Prop == "C05" && !paniced {
 			continue
 		}
 		if !paniced {
@@ -403,6 +413,15 @@ func exoticJob(raw json.RawMessage) (any, error) {
 		}
 		if pc := PanicClass(pv); pc != "error" {
 			rep("C17.error-value", "panic-not-error:"+pc, fmt.Sprintf("panic(%T): %v", pv, pv), "panic with an error value")
+		}
+		if it.Prop == "C05" {
+			// without interceptor rules Handle agrees with CheckSyntax: it may refuse what CheckSyntax accepts only
+			// because of what is registered already (a duplicate, an ambiguity), never for the pattern's syntax
+			msg := fmt.Sprint(pv)
+			if mux.CheckSyntax(second) == nil && !strings.Contains(msg, "歧义") && !strings.Contains(msg, "已经存在") && !strings.Contains(msg, "存在相同") {
+				rep("C05.pattern", "handle-rejects-checksyntax-accepts:after-other-route", fmt.Sprintf("panic: %v", pv), "registered, or refused as duplicate / ambiguous: CheckSyntax accepts the pattern")
+			}
+			continue
 		}
 		if verdict == ref.Accept {
 			class := "false-ambiguity"
